@@ -1131,3 +1131,233 @@ def p_poll( ctx ):
     else:
         res.bad( src, deliver[0].stmt, 'delivery without a preceding loop() call in the same cycle', 'values must come from the poll of the same cycle' )
     return res
+
+
+# ---------------------------------------------------------------- T-ATTROPS: text -> attribute service, as a decision table
+
+_ATTROPS_PATHS = {				# kind of the LAST segment -> a path that ends in it ( the segments ahead of it are of other kinds )
+    'instance':  [ { 'class': 1 }, { 'instance': 2 } ],
+    'attribute': [ { 'class': 1 }, { 'instance': 2 }, { 'attribute': 3 } ],
+    'element':   [ { 'class': 1 }, { 'instance': 2 }, { 'attribute': 3 }, { 'element': 4 } ],
+    'symbolic':  [ { 'symbolic': 'Tag' } ],
+    'symbolic element': [ { 'symbolic': 'Tag' }, { 'element': 5 } ],
+    'class':     [ { 'class': 1 } ],
+    'connection': [ { 'class': 1 }, { 'instance': 2 }, { 'connection': 7 } ],
+}
+
+
+def _attrops_expected( kind, has_data ):
+    if kind == 'instance':
+        return 'raise' if has_data else 'get_attributes_all'
+    if kind in ( 'attribute', 'element', 'symbolic', 'symbolic element' ):
+        return 'set_attribute_single' if has_data else 'get_attribute_single'
+    return 'raise'
+
+
+@rule( 'T-ATTROPS', props=( 'C12', ), floor=14 )
+def t_attrops( ctx ):
+    """the textual operations of the attribute services denote the service they spell: get_attribute.attribute_operations turns each operation
+    parsed by client.parse_operations ( from the caller's texts, unchanged ) into Get Attributes All when its path ENDS in an instance ( and
+    refuses data for it ), into Set / Get Attribute Single - by presence of data - when it ends in an attribute, element or symbolic
+    segment, and refuses every other path; the operation is yielded once, with its path and data as parsed.  Decision table over the kind
+    of the last segment x data present / absent ( 14 cells ), evaluated on the statements of the loop body."""
+    import copy
+    from .fold import run_block
+    res = Result( 'T-ATTROPS' )
+    src = ctx.src( GETATTR )
+    fn = src.get( 'attribute_operations' )
+    loops = [ l for l in walk_no_nested( fn ) if isinstance( l, ast.For ) and is_call_to( l.iter, 'parse_operations' ) ]
+    if len( loops ) != 1 or not isinstance( loops[0].target, ast.Name ):
+        raise AnalysisError( 'attribute_operations: the loop over client.parse_operations( ... ) not found' )
+    loop = loops[0]
+    # the texts handed on are the caller's
+    params = [ a.arg for a in fn.args.args ]
+    first = loop.iter.args[0] if loop.iter.args else None
+    if params and isinstance( first, ast.Name ) and first.id == params[0]:
+        res.ok( src, loop, 'client.parse_operations( %s, ... ): the operation texts are passed on as given' % params[0] )
+    else:
+        res.bad( src, loop, 'client.parse_operations( %s ... )' % ( norm_text( txt( first ))[:40] if first is not None else '' ),
+                 'the operations parsed are not the texts the caller supplied', func='attribute_operations' )
+    if loop.orelse:
+        raise AnalysisError( 'attribute_operations: for ... else' )
+    OP = loop.target.id
+    for kind, path in sorted( _ATTROPS_PATHS.items()):
+        for has_data in ( False, True ):
+            op = { 'path': copy.deepcopy( path ) }
+            if has_data:
+                op['data'] = [ 1, 2 ]
+            given = copy.deepcopy( op )
+            env = { OP: op }
+            try:
+                out = run_block( loop.body, env, ignore_calls=( 'log', 'logging' ))
+            except NoFold as exc:
+                raise AnalysisError( 'attribute_operations: loop body is not a decision fragment: %s' % exc )
+            want = _attrops_expected( kind, has_data )
+            cell = 'path ending in %s, %s data' % ( kind, 'with' if has_data else 'no' )
+            if out.kind == 'raise':
+                got = 'raise'
+            elif out.kind == 'yield' and out.value is op:
+                got = op.get( 'method' )
+                rest = { k: v for k, v in op.items() if k != 'method' }
+                if rest != given:
+                    res.bad( src, out.node, '%s: the yielded operation differs from the parsed one in %s' % ( cell, sorted( k for k in set( rest ) | set( given ) if rest.get( k ) != given.get( k ))),
+                             'the operation issued is not the one the text spells', func='attribute_operations' )
+                    continue
+            elif out.kind == 'yield':
+                got = 'yields something else than the operation'
+            else:
+                got = 'no operation ( %s )' % out.kind
+            res.cells += 1
+            if got == want:
+                res.ok( src, loop, '%s -> %s' % ( cell, got ))
+            else:
+                res.bad( src, out.node or loop, '%s -> %s' % ( cell, got ),
+                         'specified: %s ( Get Attributes All for a path ending in an instance and carrying no data; Set / Get Attribute Single by presence of data for a path ending in an attribute, element or symbolic segment; everything else refused )' % want,
+                         func='attribute_operations' )
+    return res
+
+
+# ---------------------------------------------------------------- T-METHODS: operation method -> request builder -> service context
+
+_METHOD_BUILDER = { 'write': 'write', 'read': 'read', 'set_attribute_single': 'set_attribute_single', 'get_attribute_single': 'get_attribute_single',
+                    'get_attributes_all': 'get_attributes_all', 'service_code': 'service_code' }
+# request builder -> the service context key(s) it may put into the request it builds ( guarded by `offset is None` where two are listed:
+# the unfragmented service first ) and the fields of that context
+_BUILDER_CONTEXT = {
+    'client.get_attributes_all':   [ ( 'get_attributes_all', None ) ],
+    'client.get_attribute_single': [ ( 'get_attribute_single', None ) ],
+    'client.set_attribute_single': [ ( 'set_attribute_single', { 'data', 'elements' } ) ],
+    'client.read':                 [ ( 'read_tag', { 'elements' } ), ( 'read_frag', { 'elements', 'offset' } ) ],
+    'client.write':                [ ( 'write_tag', { 'elements', 'data', 'type' } ), ( 'write_frag', { 'elements', 'offset', 'data', 'type' } ) ],
+}
+
+
+@rule( 'T-METHODS', props=( 'C12', ), floor=20 )
+def t_methods( ctx ):
+    """an operation is issued as the service it names.  (a) connector.issue takes the method from the operation ( default by presence of data:
+    'write' if 'data' in op else 'read' ) and every branch `method == '<m>'` builds its request with the builder of that service,
+    `self.<m>( ..., send=not multiple, **op )` - one builder call per branch, an unknown method refused; (b) each builder puts exactly the
+    context of its own service into the request ( read / write: the unfragmented one when `offset is None`, else the fragmented one with the
+    offset ), with the fields the service's producer reads, and (c) hands the request, route path, send path and sender context it was given
+    to req_send under those names when asked to send."""
+    res = Result( 'T-METHODS' )
+    src = ctx.src( CLIENT )
+    fn = src.get( 'connector.issue' )
+    # (a) the method local
+    M = Matcher()
+    bind = M.find( fn, "_method = _op.pop( 'method', _default )" )
+    if bind is None:
+        raise AnalysisError( "connector.issue: `method = op.pop( 'method', ... )` not found" )
+    METHOD, OP = M.name( '_method' ), M.name( '_op' )
+    dflt = M.b['_default']
+    cells = []
+    for opv in ( {}, { 'data': [ 1 ] }, { 'data': [] } ):
+        try:
+            cells.append( fold( dflt, { OP: opv } ))
+        except NoFold as exc:
+            raise AnalysisError( 'connector.issue: default method not foldable: %s' % exc )
+    if cells == [ 'read', 'write', 'write' ]:
+        res.ok( src, bind, "default method: 'write' if the operation carries data ( even an empty list ) else 'read'" )
+    else:
+        res.bad( src, bind, 'default method without data / with data / with an empty value list: %r / %r / %r' % tuple( cells ), "an operation without a method is a read when it carries no data and a write when it does ( presence, not truthiness )", func='connector.issue' )
+    # the if / elif chain on the method
+    chain = None
+    for st in ast.walk( fn ):
+        if isinstance( st, ast.If ) and pmatch( st.test, '%s == _name' % METHOD ) is not None \
+           and not ( isinstance( src.parent.get( st ), ast.If ) and st in src.parent.get( st ).orelse and len( src.parent.get( st ).orelse ) == 1 ):
+            chain = st
+            break
+    if chain is None:
+        raise AnalysisError( 'connector.issue: dispatch on the method not found' )
+    seen = {}
+    cur = chain
+    while True:
+        t = cur.test
+        mt = pmatch( t, '%s == _name' % METHOD )
+        if mt is None or try_fold( mt['_name'] ) is None:
+            raise AnalysisError( 'connector.issue: dispatch test %s' % norm_text( txt( t ))[:60] )
+        name = try_fold( mt['_name'] )
+        calls = [ c for s_ in cur.body for c in ast.walk( s_ ) if isinstance( c, ast.Call ) and isinstance( c.func, ast.Attribute )
+                  and isinstance( c.func.value, ast.Name ) and c.func.value.id == 'self' and any( k.arg is None and isinstance( k.value, ast.Name ) and k.value.id == OP for k in c.keywords ) ]
+        want = _METHOD_BUILDER.get( name )
+        if want is None:
+            res.note( 'method %r: not in the table of this rule' % ( name, ))
+        elif len( calls ) != 1 or calls[0].func.attr != want:
+            res.bad( src, cur, "method == %r: builds its request with %s" % ( name, ', '.join( 'self.%s' % c.func.attr for c in calls ) or 'no builder' ),
+                     'the operation is issued as another service than the one it names ( specified: self.%s( ..., **%s ) )' % ( want, OP ), func='connector.issue' )
+        else:
+            c = calls[0]
+            send = [ k.value for k in c.keywords if k.arg == 'send' ]
+            if len( send ) == 1 and pmatch( send[0], 'not multiple' ):
+                res.ok( src, c, "method == %r -> self.%s( send=not multiple, **%s )" % ( name, want, OP ))
+            else:
+                res.bad( src, c, "method == %r: self.%s( send=%s )" % ( name, want, norm_text( txt( send[0] )) if send else 'default' ),
+                         'a request that is to be bundled is sent alone as well ( or a lone one is never sent ): one result per operation no longer holds', func='connector.issue' )
+        seen[name] = cur
+        if len( cur.orelse ) == 1 and isinstance( cur.orelse[0], ast.If ):
+            cur = cur.orelse[0]
+            continue
+        tail = cur.orelse
+        refuses = any( isinstance( s_, ast.Raise ) or ( isinstance( s_, ast.Assert ) and try_fold( s_.test, default=True ) is False ) for s_ in tail )
+        if refuses:
+            res.ok( src, cur, 'an unrecognized method is refused' )
+        else:
+            res.bad( src, cur, 'dispatch on the method: no refusing else', 'an operation whose method is not known is issued as something else or dropped', func='connector.issue' )
+        break
+    for name in _METHOD_BUILDER:
+        if name not in seen:
+            res.bad( src, chain, 'method %r has no branch' % name, 'operations of this kind are refused', func='connector.issue' )
+    # (b), (c) the builders
+    for qn, ctxs in sorted( _BUILDER_CONTEXT.items()):
+        b = src.get( qn )
+        stores = []					# ( key, value node, stmt )
+        for s_ in ast.walk( b ):
+            if isinstance( s_, ast.Assign ) and len( s_.targets ) == 1 and isinstance( s_.targets[0], ast.Attribute ) \
+               and isinstance( s_.targets[0].value, ast.Name ) and s_.targets[0].value.id == 'req' and s_.targets[0].attr != 'path':
+                stores.append(( s_.targets[0].attr, s_.value, s_ ))
+        got = [ k for k, v, s_ in stores ]
+        want_keys = [ k for k, f in ctxs ]
+        if sorted( got ) != sorted( want_keys ):
+            res.bad( src, b, '%s puts %s into its request' % ( qn, ', '.join( got ) or 'no service context' ),
+                     'the request carries another service than the operation spells ( specified: %s )' % ' / '.join( want_keys ), func=qn )
+            continue
+        for ( k, v, s_ ), ( wk, wf ) in zip( sorted( stores, key=lambda x: want_keys.index( x[0] )), ctxs ):
+            if wf is not None:
+                if not isinstance( v, ast.Dict ):
+                    raise AnalysisError( '%s: req.%s is not a dict display' % ( qn, k ))
+                fields = { try_fold( kk ) for kk in v.keys }
+                if fields != wf:
+                    res.bad( src, s_, '%s: req.%s = { %s }' % ( qn, k, ', '.join( sorted( str( f ) for f in fields ))),
+                             'the fields of the service context differ from what its producer reads ( %s )' % ', '.join( sorted( wf )), func=qn )
+                    continue
+                wrong = [ try_fold( kk ) for kk, vv in zip( v.keys, v.values ) if try_fold( kk ) in ( 'elements', 'offset', 'data' ) and not ( isinstance( vv, ast.Name ) and vv.id == try_fold( kk )) ]
+                if wrong:
+                    res.bad( src, s_, '%s: req.%s: field %s is not the local of that name' % ( qn, k, ', '.join( wrong )),
+                             'the request carries a value other than the operation spells', func=qn )
+                    continue
+            if len( ctxs ) == 2:
+                # guarded by offset is None: first context in the body, second in the else
+                g = src.parent.get( s_ )
+                okg = isinstance( g, ast.If ) and pmatch( g.test, 'offset is None' ) and (( s_ in g.body ) == ( k == want_keys[0] ))
+                okg = okg or ( isinstance( g, ast.If ) and pmatch( g.test, 'offset is not None' ) and (( s_ in g.body ) == ( k == want_keys[1] )))
+                if not okg:
+                    res.bad( src, s_, '%s: req.%s not selected by `offset is None`' % ( qn, k ),
+                             'the unfragmented service is used exactly when no offset is given ( None ), the fragmented one - carrying the offset - otherwise', func=qn )
+                    continue
+            res.ok( src, s_, '%s: req.%s%s' % ( qn, k, '' if wf is None else ' = { %s }' % ', '.join( sorted( wf ))))
+        sends = [ c for c in ast.walk( b ) if is_call_to( c, 'req_send' ) ]
+        if len( sends ) != 1:
+            raise AnalysisError( '%s: %d req_send calls' % ( qn, len( sends )))
+        c = sends[0]
+        g = src.parent.get( src.parent.get( c ))
+        kw = { k.arg: k.value for k in c.keywords if k.arg }
+        wantkw = { 'request': 'req', 'route_path': 'route_path', 'send_path': 'send_path', 'sender_context': 'sender_context', 'timeout': 'timeout' }
+        wrong = [ a for a, n in wantkw.items() if not ( isinstance( kw.get( a ), ast.Name ) and kw[a].id == n ) ]
+        if wrong:
+            res.bad( src, c, '%s: req_send( %s )' % ( qn, ', '.join( '%s=%s' % ( a, norm_text( txt( kw[a] )) if a in kw else '<absent>' ) for a in wrong )),
+                     'the request is sent with another %s than the operation was given' % ' / '.join( wrong ), func=qn )
+        elif not ( isinstance( g, ast.If ) and isinstance( g.test, ast.Name ) and g.test.id == 'send' and not g.orelse ):
+            res.bad( src, c, '%s: req_send not under `if send:`' % qn, 'a request built for a bundle is sent alone as well, or a lone one is not sent', func=qn )
+        else:
+            res.ok( src, c, '%s: if send: req_send( request=req, route_path=route_path, send_path=send_path, timeout=timeout, sender_context=sender_context )' % qn )
+    return res
